@@ -9,6 +9,7 @@ Definition run (kind : Z) (inp : list Z) : list Z :=
   | 101 => run_leech true inp
   | 102 => run_piecedl inp
   | 103 => run_verifier inp
+  | 105 => run_webseed inp
   | 201 => run_new_pieces inp
   | 202 => run_calc_blocks inp
   | 203 => run_section_io inp
@@ -65,6 +66,7 @@ Definition mon (kind : Z) (inp obs : list Z) : bool :=
   | 101 => list_eqb_Z (run_leech true inp) obs
   | 102 => list_eqb_Z (run_piecedl inp) obs
   | 103 => list_eqb_Z (run_verifier inp) obs
+  | 105 => list_eqb_Z (run_webseed inp) obs
   | 201 => mon_new_pieces inp obs
   | 202 => mon_calc_blocks inp obs
   | 203 => mon_section_io inp obs
